@@ -140,7 +140,78 @@ func c20Sequence(r *core.Rand) []*types.Packet {
 	return pkts
 }
 
+// c20SweepSizes: every encoded frame size up to 8300 bytes and the
+// neighbourhoods of the multiples of 4 KiB up to 128 KiB. A buffer-size
+// boundary anywhere in the send or receive path is an exact size, which a
+// random length hits with probability ~1/size.
+func c20SweepSizes() []int {
+	var out []int
+	for n := 1; n <= 8300; n++ {
+		out = append(out, n)
+	}
+	for m := 3; m <= 32; m++ {
+		for d := -8; d <= 8; d++ {
+			out = append(out, m*4096+d)
+		}
+	}
+	return out
+}
+
+const c20SweepChunks = 160
+
+// c20SizeSweep sends one slice of the size list through SendMsg (the
+// reference reader and both decoders look at the bytes in BuildStream) and
+// reads it back through RecvMsg.
+func c20SizeSweep(c *core.Ctx, o *c20Obs) {
+	k := (c.Index/8)*2 + (c.Index%8 - 3)
+	if k < 0 {
+		return
+	}
+	r := core.NewRand(core.Mix(c.Seed, "C20-size-sweep", c.Index))
+	all := c20SweepSizes()
+	per := (len(all) + c20SweepChunks - 1) / c20SweepChunks
+	lo := (k % c20SweepChunks) * per
+	if lo >= len(all) {
+		return
+	}
+	hi := lo + per
+	if hi > len(all) {
+		hi = len(all)
+	}
+	var pkts []*types.Packet
+	for _, n := range all[lo:hi] {
+		if p := codec.PacketOfSize(r, n); p.SizeVT() == n {
+			pkts = append(pkts, p)
+		}
+		if n > 40 && n < 8300 {
+			// the same size as a STAT with a long path
+			st := &types.Stat{Path: "p", Mode: 0644, Uid: 1000, Gid: 1000, Size: 1, ModTime: 1500000000123456789}
+			p := &types.Packet{Type: types.PACKET_STAT, Stat: st}
+			if d := n - p.SizeVT(); d > 0 {
+				st.Path = strings.Repeat("p", 1+d)
+				for p.SizeVT() > n && len(st.Path) > 1 {
+					st.Path = st.Path[:len(st.Path)-1]
+				}
+			}
+			if p.SizeVT() == n {
+				pkts = append(pkts, p)
+			}
+		}
+	}
+	if len(pkts) == 0 {
+		return
+	}
+	stream, sent := codec.BuildStream(o, pkts)
+	if sent {
+		cfgs := codec.RecvCfgs(r, len(stream))
+		codec.ReadBack(o, stream, pkts, cfgs[0], r.Fork())
+	}
+	o.Count("exact_frame_sizes_swept", int64(hi-lo))
+	o.Count("packets_of_swept_sizes", int64(len(pkts)))
+}
+
 func c20Framing(c *core.Ctx, o *c20Obs) {
+	c20SizeSweep(c, o)
 	if c.Index%8 == 3 {
 		for i := 0; i < 20; i++ {
 			codec.CheckResend(o, c.R.Fork())
